@@ -338,6 +338,12 @@ def scaling_dict_strategy(spec, kinds=("none", "custom", "nominal", "gradjac", "
         # automatic scalings need a primal (and dual) point
         sp = dvec(draw, n, -16, 16, 4.0)
         sd = dvec(draw, m, -16, 16, 4.0)
+        if draw(st.integers(0, 2)) == 0:
+            # exact zeros in the scaling point (a nominal value of 0 is legal: frexp(0) has exponent 0)
+            for v in (sp, sd):
+                for t in range(len(v)):
+                    if draw(st.booleans()):
+                        v[t] = 0.0
         return {"kind": kind, "primal": sp, "dual": sd}
 
     return _s()
@@ -479,14 +485,14 @@ def unbounded_spec(draw, max_n=4):
 
 
 @st.composite
-def degenerate_spec(draw, max_n=4):
-    kind = draw(st.sampled_from(["all_fixed", "n1", "m0", "duplicate_rows", "lp_box", "zero_row"]))
+def degenerate_spec(draw, max_n=4, kinds=("all_fixed", "n1", "m0", "duplicate_rows", "lp_box", "zero_row", "row_on_bound")):
+    kind = draw(st.sampled_from(list(kinds)))
     if kind == "n1":
         base = draw(nlp_spec(max_n=1, max_m=2))
     elif kind == "m0":
         base = draw(nlp_spec(max_n=max_n, max_m=0))
     else:
-        base = draw(nlp_spec(max_n=max_n, max_m=2, min_m=1 if kind in ("duplicate_rows", "zero_row") else 0, nonlinear=draw(st.booleans())))
+        base = draw(nlp_spec(max_n=max_n, max_m=2, min_m=1 if kind in ("duplicate_rows", "zero_row", "row_on_bound") else 0, nonlinear=draw(st.booleans())))
     n, m = base["n"], base["m"]
     if kind == "all_fixed":
         xf = base["xf"]
@@ -511,6 +517,28 @@ def degenerate_spec(draw, max_n=4):
         else:
             base["cl"][0] = float(b0) - 1.0 if np.isfinite(base["cl"][0]) else -INF
             base["cu"][0] = float(b0) + 1.0 if np.isfinite(base["cu"][0]) else INF
+    elif kind == "row_on_bound" and m >= 1:
+        # the only row is an equation in one variable whose solution is exactly that variable's bound: a step that
+        # clips the variable onto the bound makes the constraint value exactly 0.0
+        j = draw(st.integers(0, n - 1))
+        a = draw(st.sampled_from([0.5, 1.0, 2.0, -1.0]))
+        v = draw(st.integers(-16, 16)) / 8.0
+        width = draw(st.sampled_from([None, 0.5, 4.0]))
+        for k in ("Hc", "u", "T"):
+            base.pop(k, None)
+        row = [0.0] * n
+        row[j] = a
+        base["A"], base["b"], base["m"] = [row], [0.0], 1
+        base["cl"] = base["cu"] = [a * v]
+        lb, ub = list(base["lb"]), list(base["ub"])
+        if draw(st.booleans()):
+            ub[j], lb[j] = v, (-INF if width is None else v - width)
+        else:
+            lb[j], ub[j] = v, (INF if width is None else v + width)
+        base["lb"], base["ub"] = lb, ub
+        xf = np.clip(np.array(base["xf"], dtype=float), lb, ub)
+        xf[j] = v
+        base["xf"] = xf.tolist()
     base["family"] = "degenerate:" + kind
     return base
 
